@@ -651,3 +651,58 @@ def phase_shortcut(ctx) -> None:
                "complex → generator with cosφ/sinφ; not complex → phase-free generator" if ok else
                f"{K.name}.{method} maps the flag to (uses phases, phase-free) as {seen}: the phase-free generator runs for "
                f"non-zero phases or the other way round")
+
+
+def noise_forwarding(ctx) -> None:
+    """The jump operators are built for the run's own basis: PulserData.__init__ hands _get_all_lindblad_noise_operators
+    the dim and interaction_type of the HamiltonianData's basis_data, and that function forwards both (and the noise
+    model and the type being iterated) to every get_lindblad_operators call.  A dropped keyword falls back to the
+    callee's default ("ising", dim 2): XY runs get relabelled eff_noise operators, three-level runs 2x2 operators."""
+    from .adapter import _run, PA
+    GLO = "emu_base.jump_lindblad_operators.get_lindblad_operators"
+    ALL = PA + "_get_all_lindblad_noise_operators"
+    f, fp = _run(ctx, ALL)
+    n = 0
+    bad = []
+    for p in fp:
+        for e in p.events:
+            if e.kind != "call" or e.name != GLO:
+                continue
+            n += 1
+            got = dict(e.kw)
+            got.update(e.args if isinstance(e.args, dict) else {})
+            for name in ("noise_model", "dim", "interact_type"):
+                v = strip_typed(got[name]) if got.get(name) is not None else None
+                if v != ("param", f.qualname, name):
+                    bad.append(f"get_lindblad_operators({name}={show(v)[:40] if v is not None else '<callee default>'})")
+            v = strip_typed(got["noise_type"]) if got.get("noise_type") is not None else None
+            if not (v is not None and v[0] == "elem" and strip_typed(v[1]) == ("attr", ("param", f.qualname, "noise_model"), "noise_types")):
+                bad.append(f"get_lindblad_operators(noise_type={show(v)[:40] if v is not None else '<missing>'})")
+    ctx.require(n >= 1, "NOISE-forward: no get_lindblad_operators call in _get_all_lindblad_noise_operators")
+    ctx.ob("NOISE-forward", "_get_all_lindblad_noise_operators", f.loc(), not bad,
+           "every get_lindblad_operators call receives the caller's noise_model, dim and interact_type and the noise "
+           "type being iterated" if not bad else
+           f"{bad[0]} instead of the caller's own value: the operators are built for another basis than the run's")
+    g, gp = _run(ctx, PA + "PulserData.__init__", cls=PA + "PulserData", loop_iters=(1,))
+    m = 0
+    bad = []
+    for p in gp:
+        if p.status != "return":
+            continue
+        for e in p.events:
+            if e.kind != "call" or e.name != ALL:
+                continue
+            m += 1
+            got = dict(e.kw)
+            got.update(e.args if isinstance(e.args, dict) else {})
+            for name, attr in (("dim", "dim"), ("interact_type", "interaction_type")):
+                v = strip_typed(got[name]) if got.get(name) is not None else None
+                ok = v is not None and v[0] == "attr" and v[2] == attr and strip_typed(v[1])[0] == "attr" and \
+                    strip_typed(v[1])[2] == "basis_data" and strip_typed(strip_typed(v[1])[1])[0] == "call" and \
+                    strip_typed(strip_typed(v[1])[1])[1].endswith("HamiltonianData.from_sequence")
+                if not ok:
+                    bad.append(f"{name}={show(v)[:50] if v is not None else '<callee default>'}")
+    ctx.require(m >= 2, f"NOISE-forward: {m} _get_all_lindblad_noise_operators events in PulserData.__init__")
+    ctx.ob("NOISE-forward", "PulserData.__init__", g.loc(), not bad,
+           "the jump operators are requested with the dim and interaction_type of the HamiltonianData's basis_data"
+           if not bad else f"_get_all_lindblad_noise_operators({bad[0]}) is not the basis of the sequence's HamiltonianData")
